@@ -101,6 +101,8 @@ def main():
             ev = traces.failing_event(tr, err)
             if "fault" not in ev:
                 continue
+            if err["clause"] == "fault_tmp":      # a file left behind is C15's clause (checks/storage.py runs these jobs for it)
+                continue
             f = ev["fault"]
             after = tid.rsplit("-", 1)[1]
             tags = {"clause:" + err["clause"], "op:" + ev["a"]["op"], "at:" + f["at"], "after:" + after, "ai:%d" % tr["auto_index"]}
